@@ -20,7 +20,7 @@ pub trait HistMonitor {
     /// Called before the op is executed (for before/after comparisons).
     fn before(&mut self, _s: &mut Session, _op: &Op, _ctx: &mut Ctx) {}
     /// Called after the op; returns a violation message if the property is refuted.
-    fn after(&mut self, s: &mut Session, op: &Op, o: &Outcome, ctx: &mut Ctx) -> Option<String>;
+    fn after(&mut self, s: &mut Session, op: &Op, o: &mut Outcome, ctx: &mut Ctx) -> Option<String>;
     /// End-of-history probes.
     fn finish(&mut self, _s: &mut Session, _ctx: &mut Ctx) -> Option<String> {
         None
@@ -285,7 +285,7 @@ impl Runner<'_> {
             let pre = pre_state(&s.m, &op);
             let mut ctx = Ctx { c: self.c, rng: &mut rng, labels: labels.clone() };
             mon.before(&mut s, &op, &mut ctx);
-            let o = s.step(&op);
+            let mut o = s.step(&op);
             account(&op, &o, &pre, &mut st, self.c);
             if let (Op::NextId, Ret::Id(id)) = (&op, &o.ret) {
                 match &mut src {
@@ -308,7 +308,7 @@ impl Runner<'_> {
             }
             // 2. the monitor's own judgement
             let mut ctx = Ctx { c: self.c, rng: &mut rng, labels: labels.clone() };
-            if let Some(msg) = mon.after(&mut s, &op, &o, &mut ctx) {
+            if let Some(msg) = mon.after(&mut s, &op, &mut o, &mut ctx) {
                 violation = Some((msg, at));
                 break;
             }
@@ -392,7 +392,7 @@ pub fn drain(
     rng: &mut Rng,
     c: &mut Counters,
     st_collect: &mut u64,
-    f: &mut dyn FnMut(&mut Session, &Op, &Outcome) -> Option<String>,
+    f: &mut dyn FnMut(&mut Session, &Op, &mut Outcome) -> Option<String>,
 ) -> Option<String> {
     for round in 0..2 {
         let mut vs: Vec<usize> = if round == 0 {
@@ -406,12 +406,12 @@ pub fn drain(
                 continue;
             }
             let op = Op::Data(v);
-            let o = s.step(&op);
+            let mut o = s.step(&op);
             c.inc("probe.drain-reads");
             if !o.model_removed.is_empty() {
                 *st_collect += 1;
             }
-            if let Some(m) = f(s, &op, &o) {
+            if let Some(m) = f(s, &op, &mut o) {
                 return Some(m);
             }
             if o.panic.is_some() {
